@@ -64,7 +64,7 @@ def model_inputs(n_ranges: int, n_singles: int, grid: list[str]):
                     yield list(ss), list(rs)
 
 
-def check_char_class(fn: ast.FunctionDef, where: str, n_ranges: int, n_singles: int, grid: list[str] = GRID) -> tuple[int, list[tuple[str, str, str]]]:
+def check_char_class(fn: ast.FunctionDef, where: str, n_ranges: int, n_singles: int, grid: list[str] = GRID, repo=None, rel: str | None = None) -> tuple[int, list[tuple[str, str, str]]]:  # noqa: ANN001
     """Returns (points evaluated, [(kind, input, detail)]) — kind in MISSING/EXTRA/MALFORMED/RAISES."""
     params = [a.arg for a in fn.args.args]
     if len(params) != 2:
@@ -73,13 +73,26 @@ def check_char_class(fn: ast.FunctionDef, where: str, n_ranges: int, n_singles: 
     bad: list[tuple[str, str, str]] = []
     n = 0
     UNIVERSE = [chr(c) for c in range(ord(grid[0]) - 2, ord(grid[-1]) + 3)]  # noqa: N806
+    # the function may lean on helpers and small classes of its own module: evaluated on the program model of that
+    # module (sa/objmodel.py) when it calls anything the bare evaluator does not know
+    own_calls = {c.func.id for c in ast.walk(fn) if isinstance(c, ast.Call) and isinstance(c.func, ast.Name)}
+    cm = None
+    if repo is not None and rel is not None:
+        m = repo.mod(rel)
+        if own_calls & (set(m.functions()) | set(m.classes())) - {fn.name}:
+            from .objmodel import ClassModel, maybe_install_re
+
+            cm = ClassModel(repo, [rel], where, {"Generic": None}, max_steps=200000)
+            maybe_install_re(cm)
     for singles, ranges in model_inputs(n_ranges, n_singles, grid):
         n += 1
-        env = {params[0]: list(singles), params[1]: list(ranges), "re": Obj("re")}
-        ev = Ev(env, where, methods)
         desc = f"singles={singles!r} ranges={ranges!r}"
         try:
-            res = ev.run_function(fn.body)
+            if cm is not None:
+                res = cm.env[fn.name](list(singles), list(ranges))
+            else:
+                env = {params[0]: list(singles), params[1]: list(ranges), "re": Obj("re")}
+                res = Ev(env, where, methods).run_function(fn.body)
         except ModelRaise as err:
             bad.append(("RAISES", desc, str(err)))
             continue
